@@ -963,7 +963,7 @@ impl NodeDeletionEntry {
             }
         }
         let query = format!(
-            "SELECT id, verifying_key  FROM _node WHERE id in ({})",
+            "SELECT id, verifying_key, room_id  FROM _node WHERE id in ({})",
             in_clause
         );
         let mut stmt = conn.prepare(&query)?;
@@ -971,7 +971,15 @@ impl NodeDeletionEntry {
         while let Some(row) = rows.next()? {
             let id: Uid = row.get(0)?;
             let verifying_key: Option<Vec<u8>> = row.get(1)?;
-            if let Some(entry) = map.get_mut(&id) {
+            let room_id: Option<Uid> = row.get(2)?;
+            //the rights are checked in the room named by the deletion: it must be the room of the row
+            let same_room = match map.get(&id) {
+                Some(entry) => room_id == Some(entry.0.room_id),
+                None => true,
+            };
+            if !same_room {
+                map.remove(&id);
+            } else if let Some(entry) = map.get_mut(&id) {
                 entry.1 = verifying_key;
             }
         }
